@@ -19,9 +19,9 @@ import (
 
 func cases(tier string) int {
 	if tier == "thorough" {
-		return 6000
+		return 10000
 	}
-	return 320
+	return 800
 }
 
 func cliEvery(tier string) int {
